@@ -1076,9 +1076,13 @@ class SMPLayer(Layer):
         """Generate the LTK used in legacy pairing.
         """
         if self.is_initiator():
-            return generate_random_value(8*self.state.initiator.max_key_size)
+            key_size = self.state.initiator.max_key_size
         else:
-            return generate_random_value(8*self.state.responder.max_key_size)
+            key_size = self.state.responder.max_key_size
+        # Keys are exchanged and stored as 128-bit values: a shorter key has its
+        # most significant bytes (transmitted last) set to zero, so that the value
+        # we keep is exactly the value the peer receives.
+        return generate_random_value(8*key_size) + b"\x00"*(16 - key_size)
 
     def generate_legacy_random(self):
         """Generate the rand used in legacy pairing.
@@ -1094,17 +1098,25 @@ class SMPLayer(Layer):
         """Generate the IRK used in legacy and secure pairing.
         """
         if self.is_initiator():
-            return generate_random_value(8*self.state.initiator.max_key_size)
+            key_size = self.state.initiator.max_key_size
         else:
-            return generate_random_value(8*self.state.responder.max_key_size)
+            key_size = self.state.responder.max_key_size
+        # Keys are exchanged and stored as 128-bit values: a shorter key has its
+        # most significant bytes (transmitted last) set to zero, so that the value
+        # we keep is exactly the value the peer receives.
+        return generate_random_value(8*key_size) + b"\x00"*(16 - key_size)
 
     def generate_csrk(self):
         """Generate the CSRK used in legacy and secure pairing.
         """
         if self.is_initiator():
-            return generate_random_value(8*self.state.initiator.max_key_size)
+            key_size = self.state.initiator.max_key_size
         else:
-            return generate_random_value(8*self.state.responder.max_key_size)
+            key_size = self.state.responder.max_key_size
+        # Keys are exchanged and stored as 128-bit values: a shorter key has its
+        # most significant bytes (transmitted last) set to zero, so that the value
+        # we keep is exactly the value the peer receives.
+        return generate_random_value(8*key_size) + b"\x00"*(16 - key_size)
 
     def get_passkey_entry(self):
         """Ask the user to enter the passkey entry.
